@@ -968,11 +968,12 @@ func ruleC01Match(p *Prog, r *Result) {
 		return false, "after all pattern entries matched the result must be true"
 	})
 	// placeholder rule (C10.placeholder lives here too): single-key $merge/$replace/$encode maps never match
-	for _, d := range []string{"$merge", "$replace", "$encode"} {
+	placeholders := []string{"$merge", "$replace", "$encode"}
+	for _, d := range placeholders {
 		d := d
 		pr.some("a map holding only "+d+" never matches a pattern", plainMap, "single-key check for "+d+" returns false", "the placeholder rule for "+d+" is gone: an unevaluated "+d+" reference could match (and be deleted or merged into) by pattern",
 			func(pa *Path) bool {
-				return guardPol(pa, "streq", mKeyOf(objP), q(d)) == 1 && retBool(pa, "false") && guardPol(pa, "len", objP, "==1") == 1
+				return keyIsOrIsIn(pa, mKeyOf(objP), d, placeholders) && retBool(pa, "false") && guardPol(pa, "len", objP, "==1") == 1
 			})
 	}
 	// list pattern
@@ -1030,8 +1031,8 @@ func ruleC01Match(p *Prog, r *Result) {
 			return true, ""
 		}
 		if guardPol(pa, "len", objP, "==1") == 1 {
-			for _, d := range []string{"$merge", "$replace", "$encode"} {
-				if guardPol(pa, "streq", mKeyOf(objP), q(d)) == 1 {
+			for _, d := range placeholders {
+				if keyIsOrIsIn(pa, mKeyOf(objP), d, placeholders) {
 					return true, ""
 				}
 			}
@@ -1084,4 +1085,47 @@ func ruleC07Required(p *Prog, r *Result) {
 		}
 		return false, `the parent list's "$required" marker is stripped although the child is not a list (null or absent child: nothing overrides the requirement, yet evaluation succeeds)`
 	})
+}
+
+// keyIsOrIsIn: on this path the key is known to equal name — by a direct comparison, or by having been found in
+// a constant list that holds name and nothing outside allowed (slices.Contains([]string{...}, k)).
+func keyIsOrIsIn(pa *Path, key TM, name string, allowed []string) bool {
+	if guardPol(pa, "streq", key, q(name)) == 1 {
+		return true
+	}
+	for _, g := range pa.Guards {
+		if g.Kind != "eq" || g.Neg || g.A == nil || g.B == nil {
+			continue
+		}
+		for _, pair := range [][2]*T{{g.A, g.B}, {g.B, g.A}} {
+			k, el := pair[0], pair[1]
+			if !key(k) || el.Op != "elem" || len(el.Args) != 1 || el.Args[0].Op != "lit" {
+				continue
+			}
+			has, onlyAllowed := false, true
+			for _, c := range el.Args[0].Args {
+				s, ok := c.StrConst()
+				if !ok {
+					onlyAllowed = false
+					continue
+				}
+				if s == name {
+					has = true
+				}
+				inAllowed := false
+				for _, a := range allowed {
+					if a == s {
+						inAllowed = true
+					}
+				}
+				if !inAllowed {
+					onlyAllowed = false
+				}
+			}
+			if has && onlyAllowed {
+				return true
+			}
+		}
+	}
+	return false
 }
